@@ -211,6 +211,7 @@ func cmdCheck(args []string) {
 	seenKnown := map[string]bool{}
 	reported := map[string]bool{}
 	nViol := 0
+	nKnownObl := 0
 	var knownSeen []string
 	for i := range viols {
 		vi := &viols[i]
@@ -220,6 +221,12 @@ func cmdCheck(args []string) {
 				seenKnown[key] = true
 				fmt.Printf("KNOWN-FINDING: property=%s %s: %s\n", *prop, kf.Site, kf.What)
 				knownSeen = append(knownSeen, kf.Obligation)
+			}
+			if vi.Kind != "bounded" && vi.Kind != "bounded-new" && nObl > nDis {
+				// an obligation that fails exactly as a recorded known finding is reported by its
+				// KNOWN-FINDING line, not counted among the obligations of the proof
+				nObl--
+				nKnownObl++
 			}
 			continue
 		}
@@ -321,6 +328,7 @@ func cmdCheck(args []string) {
 		"bounded":                  spec.Bounded,
 		"bounded_standin":          boundedOut,
 		"known_findings_seen":      knownSeen,
+		"obligations_failing_as_known_findings": nKnownObl,
 		"lean_lemmas_used_as_axioms": leanUsed,
 		"notes":                    notes,
 		"explanation":              spec.Title,
